@@ -34,10 +34,10 @@ fn int_candidates(v: u64, bits: u32) -> Vec<(String, u64)> {
     c
 }
 
-struct Mutant {
-    field: &'static str,
-    class: String,
-    spec: XzSpec,
+pub struct Mutant {
+    pub field: &'static str,
+    pub class: String,
+    pub spec: XzSpec,
 }
 
 fn refit_header(b: &mut xz::BlockSpec) {
@@ -59,7 +59,7 @@ fn refit_header(b: &mut xz::BlockSpec) {
     b.header_size_byte = ((body + pad + 4) / 4 - 1) as u8;
 }
 
-fn field_mutants(spec: &XzSpec) -> Vec<Mutant> {
+pub fn field_mutants(spec: &XzSpec) -> Vec<Mutant> {
     let mut ms: Vec<Mutant> = Vec::new();
     let mut push = |field: &'static str, class: String, s: XzSpec| ms.push(Mutant { field, class, spec: s });
     // stream header
